@@ -1240,7 +1240,7 @@ impl<'a> Gen<'a> {
         self.in_call_arg += 1;
         // a share of the calls have only constant arguments (and a constant tail): that is what
         // the constant-folding optimisers of cl23+ act on
-        let all_const = self.rng.chance(1, 7) && !has_clo_param(&f.params);
+        let all_const = self.rng.chance(1, 5) && !has_clo_param(&f.params);
         let empty: Scope = vec![];
         let (ascope, adepth): (&Scope, usize) = if all_const { (&empty, 0) } else { (scope, d) };
         for it in items.iter() {
@@ -1272,11 +1272,11 @@ impl<'a> Gen<'a> {
                     args.push(self.gen_expr(Ty::Int, adepth, ascope));
                 }
             }
-        } else if rest_ok && !items.is_empty() && self.rng.chance(1, 8) {
+        } else if rest_ok && !items.is_empty() && self.rng.chance(1, if all_const { 3 } else { 8 }) {
             // too few positional arguments, the rest supplied through a literal-length tail
             let keep = self.rng.below(items.len());
             let dropped: Vec<Expr> = args.drain(keep..).collect();
-            rest = Some(Box::new(if all_const && self.rng.chance(1, 2) { quote_if_const(dropped) } else { list_expr_of(dropped) }));
+            rest = Some(Box::new(if all_const && self.rng.chance(3, 4) { quote_if_const(dropped) } else { list_expr_of(dropped) }));
         } else if self.rng.chance(1, 12) {
             // surplus positional arguments are ignored
             args.push(self.gen_expr(Ty::Int, adepth, ascope));
